@@ -144,7 +144,7 @@ def sh(cmd, cwd=None, env=None, timeout=None):
 
 def run_mutant(m, wt, scale, workers, checks_only):
     rel = m['file']
-    orig = open(os.path.join(REPO, rel)).read()
+    orig = open(os.path.join(wt, rel)).read()       # the worktree is a snapshot of HEAD taken when the run started
     lines = orig.split('\n')
     ln = lines[m['line'] - 1]
     assert ln[m['c0']:m['c1']] == m['old'], (ln, m)
@@ -208,10 +208,17 @@ def main():
     a = ap.parse_args()
     if a.report:
         return report(a.report)
+    wts = []
+    for j in range(a.jobs if not a.list else 1):
+        d = tempfile.mkdtemp(prefix='mut_wt_', dir='/tmp')
+        os.rmdir(d)
+        subprocess.run(['git', '-C', REPO, 'worktree', 'add', '-q', d, 'HEAD'], check=True)
+        wts.append(d)
+    snap = wts[0]           # mutants are enumerated from the snapshot, so that /repo may move on while the run lasts
     muts = []
-    files = sorted(set(f for g in a.files for f in glob.glob(os.path.join(REPO, g), recursive=True)))
+    files = sorted(set(f for g in a.files for f in glob.glob(os.path.join(snap, g), recursive=True)))
     for f in files:
-        rel = os.path.relpath(f, REPO)
+        rel = os.path.relpath(f, snap)
         if rel.endswith('__init__.py') or '/antlr/' in rel or 'cpp' in rel.lower() or '/ros' in rel:
             continue
         src = open(f).read()
@@ -222,6 +229,7 @@ def main():
         from collections import Counter
         print(Counter(m['kind'] for m in muts))
         print(Counter(os.path.dirname(m['file']) for m in muts).most_common(40))
+        subprocess.run(['git', '-C', REPO, 'worktree', 'remove', '--force', snap])
         return
     rnd = random.Random(a.seed)
     rnd.shuffle(muts)
@@ -232,12 +240,6 @@ def main():
             done.add((r['file'], r['line'], r['c0'], r['new']))
     todo = [m for m in muts if (m['file'], m['line'], m['c0'], m['new']) not in done][:a.sample]
     os.makedirs(os.path.dirname(a.out), exist_ok=True)
-    wts = []
-    for j in range(a.jobs):
-        d = tempfile.mkdtemp(prefix='mut_wt_', dir='/tmp')
-        os.rmdir(d)
-        subprocess.run(['git', '-C', REPO, 'worktree', 'add', '-q', d, 'HEAD'], check=True)
-        wts.append(d)
     import queue
     free = queue.Queue()
     for d in wts:
